@@ -18,6 +18,8 @@ EXPLANATION = (
     'the consuming lookup by key-domain refinement; (R5) nothing that reaches output iterates a set without '
     'sorting. Interprocedural may-alias analysis with allocation-site heap and call-site-instantiated summaries. '
     'Not decided: mutations performed inside numpy/astropy/matplotlib by calls the table believes pure.')
+EXPLANATION_ADDED = (" (R6) no shared default-argument object is stored in an instance un-copied (the store is followed into the descriptor's __set__).")
+EXPLANATION += EXPLANATION_ADDED
 TRUSTED = ['known-mutator table of container methods; alias-returning externals table (np.asarray, slicing, '
            'dict.get/items/values, getattr...); every other external call returns a fresh value and mutates nothing',
            'ndarray <<= astropy unit rebinds (numpy declines, unit.__rlshift__ builds a new Quantity)']
